@@ -722,7 +722,21 @@ pub fn gen_wrep(rng: &mut Rng) -> RawCase {
             15 => format!("FOR I% = {} TO {}\n{} = {}\nNEXT", i1, i2, v, i2),
             16 => format!("FOR S! = 1 TO 2 STEP {}\nPRINT S!;\nC9% = C9% + 1\nIF C9% > 40 THEN END\nNEXT", rng.pick(&["0.5", "0.25", "-1", "I%", "I% * 1", "J& - J&", "C1 - 4", "I% * 0 + 1"])),
             17 => format!("SELECT CASE {}\nCASE 1 TO 3\nPRINT \"a\"\nCASE IS > {}\nPRINT \"b\"\nCASE ELSE\nEND SELECT", i1, i2),
-            18 => format!("SELECT CASE {}\nCASE \"a\", \"b\"\nPRINT 1\nCASE ELSE\nPRINT 2\nEND SELECT", s1),
+            18 => {
+                if rng.chance(1, 3) {
+                    // the selector is a field of a record array element whose subscript may
+                    // be out of range (also inside another SELECT CASE)
+                    let sel = *rng.pick(&["PA(I%).X", "PA(3).X", "PA(Fn1%(I%)).X", "PA(I% + 2).Y", "PA(1).X"]);
+                    let inner = format!("SELECT CASE {}\nCASE 0\nPRINT \"z\";\nCASE 1 TO 9\nPRINT \"n\";\nCASE ELSE\nPRINT \"e\";\nEND SELECT", sel);
+                    if rng.chance(1, 2) {
+                        format!("SELECT CASE {}\nCASE ELSE\n{}\nEND SELECT", i1, inner)
+                    } else {
+                        inner
+                    }
+                } else {
+                    format!("SELECT CASE {}\nCASE \"a\", \"b\"\nPRINT 1\nCASE ELSE\nPRINT 2\nEND SELECT", s1)
+                }
+            }
             19 => format!("WHILE I% < 3\nI% = I% + 1\n{} = {}\nWEND", v, i1),
             20 => format!("Sb1 {}, {}, ({})", rng.pick(&["I%", "A1%(1)", "P.X", "GS%", "A1%(I%)", "PA(1).X", "A1%(Fn1%(I%))", "A1%(Fn4%(I%, GS%))", "PA(Fn1%(I%)).X", "A1%(Fn5%(1))", "A1%(Fn5%(Fn1%(1)))"]), rng.pick(&["T$", "A2$(1, 2)", "GA$(1)", "A2$(I%, 0)", "A2$(Fn5%(1), 1)"]), i1),
             21 => {
